@@ -171,7 +171,11 @@ def find_property_index(obj, search_key, search_value):
     """
     # Special-case keys which are numbers-as-strings, e.g. for cyber-observable
     # mappings.  Use the int value of the key as the index.
-    if search_key.isdigit():
+    # (A top-level property of that name keeps its own place.)
+    if search_key.isdecimal() and not (
+        isinstance(obj, stix2.base._STIXBase) and search_key in obj and
+        obj[search_key] == search_value
+    ):
         return int(search_key)
 
     if isinstance(obj, stix2.base._STIXBase):
